@@ -10,6 +10,11 @@ import world as W
 HDR = ("From Tramp Require Import Model.Base Model.Tlv Model.Fee Model.Classify Model.Sys Check.Common Check.SysCheck Check.SysMon.\n"
        "Open Scope N_scope.")
 
+# known-finding class per property: (class name, bit of the monitor's kf mask). C05/C08 are proved with read errors allowed
+# everywhere except inside pay()'s wait_payment, so only that narrower class excuses a violation there.
+KF_CLASS = {"C05": ("kf_pay_wait_read_error", 2), "C08": ("kf_pay_wait_read_error", 2)}
+def kf_class(prop): return KF_CLASS.get(prop, ("kf_read_error", 1))
+
 PROP_BIT = {"C01": 1, "C02": 2, "C03": 3, "C04": 4, "C05": 5, "C06": 6, "C07": 7, "C08": 8, "C09": 9, "C11": 11, "C12": 12, "C13": 13}
 
 def build_invoices(binary, cases):
@@ -108,8 +113,9 @@ def replay_case(prop, path):
     if bad or k_reply:
         print("INTERNAL: the replayed trace is not a contract-respecting history (bad=%s, reply mismatch at %s)" % (bad, k_reply)); return 3
     if mask & (1 << bit):
-        if kf & 1 and any(k.get("property") == prop and k.get("status") == "known" and k.get("class") == "kf_read_error" for k in load_known()):
-            print("KNOWN-FINDING: property=%s replay reproduces the recorded class kf_read_error (first violation at step %d)" % (prop, first)); return 0
+        kfname, kfbit = kf_class(prop)
+        if kf & kfbit and any(k.get("property") == prop and k.get("status") == "known" and k.get("class") == kfname for k in load_known()):
+            print("KNOWN-FINDING: property=%s replay reproduces the recorded class %s (first violation at step %d)" % (prop, kfname, first)); return 0
         print("VIOLATION property=%s replay=%s" % (prop, path)); print("  property monitor fails at step %d of the re-run history" % first); return 1
     if k_out:
         print("VIOLATION property=%s replay=%s no-failing-input-found" % (prop, path)); print("  implementation and model differ at step %d of the re-run history" % k_out); return 1
@@ -165,14 +171,15 @@ def run_property(prop, tier, seed, gen, rule, assumptions, pins_targets=None, pr
             if k_reply:
                 o.internal.append(desc_head + ": simulated node reply differs from Node.v at step %d" % k_reply)
                 continue
+            kfname, kfbit = kf_class(prop)
             if prop == "C06" and (kf & 1) and any(x.get("o") == "panic" for st in t["steps"] for x in st["out"]):
                 # the monitor waives C06 inside the class; the panic (KF-A) is what is observed on the implementation
                 o.kf_hits["kf_read_error"] = o.kf_hits.get("kf_read_error", 0) + 1
             if mask & (1 << bit):
                 payload = {"profile": profile, "family": c["family"], "first_violation_step": first, "violated_mask": mask,
                            "history": brief(t, first + 2), "case": runnable(c), "trace": t}
-                if kf & 1:
-                    o.kf_hits["kf_read_error"] = o.kf_hits.get("kf_read_error", 0) + 1
+                if kf & kfbit:
+                    o.kf_hits[kfname] = o.kf_hits.get(kfname, 0) + 1
                 else:
                     o.monitor_failures.append((desc_head + ": property monitor fails at step %d: %s" % (first, " | ".join(brief(t, first)[-3:])[:700]), payload))
             if k_out:
@@ -189,7 +196,7 @@ def run_property(prop, tier, seed, gen, rule, assumptions, pins_targets=None, pr
         ok, log, binary = harness_build("dev")
         keep, verdicts, _ = run_traces(binary, gen("thorough", seed + 1)[:600], prop + "search")
         for (c, t), v in zip(keep, verdicts):
-            if v[3] & (1 << bit) and not v[0] and not (v[5] & 1):
+            if v[3] & (1 << bit) and not v[0] and not (v[5] & kf_class(prop)[1]):
                 return ("family %s: property monitor fails at step %d: %s" % (c["family"], v[4], " | ".join(brief(t, v[4])[-3:])[:700]),
                         {"family": c["family"], "first_violation_step": v[4], "history": brief(t, v[4] + 2), "case": runnable(c), "trace": t})
         return None
